@@ -129,11 +129,23 @@ func allValid(c *enum.Ctx, k kase, a alphabet.Alphabet, def string, cased bool, 
 		ls[i] = alphabet.Letter(l)
 		qs[i] = alphabet.QLetter{L: alphabet.Letter(l), Q: 7}
 	}
-	ok, pos := a.AllValid(ls)
+	var ok bool
+	var pos int
+	if c.Guard(tag+"/AllValid/panic", k, func() {
+		ok, pos = a.AllValid(ls)
+		if len(ls) == 0 {
+			a.AllValid(nil) // a nil slice is an empty slice
+			a.AllValidQLetter(nil)
+		}
+	}) {
+		return
+	}
 	if ok != (want < 0) || (want >= 0 && pos != want) || (want < 0 && pos >= 0) {
 		c.Fail(tag+"/AllValid", k, "AllValid(%q) = (%v,%d), first invalid position is %d (definition %q)", k.Letters, ok, pos, want, def)
 	}
-	ok, pos = a.AllValidQLetter(qs)
+	if c.Guard(tag+"/AllValidQLetter/panic", k, func() { ok, pos = a.AllValidQLetter(qs) }) {
+		return
+	}
 	if ok != (want < 0) || (want >= 0 && pos != want) || (want < 0 && pos >= 0) {
 		c.Fail(tag+"/AllValidQLetter", k, "AllValidQLetter(%q) = (%v,%d), first invalid position is %d", k.Letters, ok, pos, want)
 	}
